@@ -164,6 +164,11 @@ DIRECTED = [
         ("while", "C(1)", [("aug", ("name", "x"), "+", "3")]),
         ("if", "C(2)", [("assign", [("name", "x")], "H(3, x)")], [("ann", "x", "int", "H(4, x)")]),
         ("return", "x")], params=("a",))),
+    ("assignment expression in the index of the target of an augmented assignment", _fn([
+        ("subwalrus", "x", "H(1)", "H(2)"),
+        ("subwalrus", "x", "H(1)", "3", "aug"),
+        ("subwalrus", "y", "H(1)", "x", "aug"),
+        ("return", "x")])),
     ("assignment expression in the index of a target", _fn([
         ("subwalrus", "x", "H(1)", "H(2)"),
         ("for", ("name", "i"), "T(3, 'list', 2)", [("subwalrus", "x", "H(4, i)", "i")], []),
